@@ -33,6 +33,7 @@ import (
 	"net"
 	"net/http"
 	"os"
+	"path"
 	"sort"
 	"strings"
 	"sync"
@@ -133,7 +134,9 @@ func (o *origins) handle(scheme, dialHost, dialPort, via string, req *http.Reque
 	redirected := strings.HasPrefix(p, redirPrefix+"/")
 	if !redirected && sc.redirect != "none" && sc.redirect != "" && kind == sc.redirectKind {
 		var loc string
-		clean := "/" + strings.TrimLeft(p, "/")
+		// no dot segments or empty segments in the Location: net/http resolves it against the
+		// request URL and would otherwise eat the /redir marker (request path /../x.tgz)
+		clean := path.Clean("/" + p)
 		switch sc.redirect {
 		case "evil":
 			loc = scheme + "://" + sc.redirectHost + redirPrefix + clean
@@ -184,7 +187,7 @@ func serverTLSConfig() *tls.Config {
 			SerialNumber: big.NewInt(19),
 			Subject:      pkix.Name{CommonName: "c19 capture (self-signed)"},
 			NotBefore:    time.Unix(0, 0),
-			NotAfter:     time.Unix(1<<40, 0),
+			NotAfter:     time.Date(2099, 1, 1, 0, 0, 0, 0, time.UTC),
 			KeyUsage:     x509.KeyUsageDigitalSignature,
 			ExtKeyUsage:  []x509.ExtKeyUsage{x509.ExtKeyUsageServerAuth},
 			DNSNames:     []string{"capture.invalid"},
@@ -193,7 +196,8 @@ func serverTLSConfig() *tls.Config {
 		if err != nil {
 			panic(err)
 		}
-		serverTLS = &tls.Config{Certificates: []tls.Certificate{{Certificate: [][]byte{der}, PrivateKey: priv}}, MinVersion: tls.VersionTLS12}
+		serverTLS = &tls.Config{Certificates: []tls.Certificate{{Certificate: [][]byte{der}, PrivateKey: priv}}, MinVersion: tls.VersionTLS12,
+			CurvePreferences: []tls.CurveID{tls.X25519}, SessionTicketsDisabled: true}
 	})
 	return serverTLS
 }
@@ -231,7 +235,7 @@ func (o *origins) newTransport() *http.Transport {
 				}
 				o.serveConn(ts, "https", h, p, "pipe")
 			}()
-			tc := tls.Client(c, &tls.Config{InsecureSkipVerify: true, ServerName: h})
+			tc := tls.Client(c, &tls.Config{InsecureSkipVerify: true, ServerName: h, CurvePreferences: []tls.CurveID{tls.X25519}})
 			if err := tc.HandshakeContext(ctx); err != nil {
 				c.Close()
 				return nil, err
